@@ -98,8 +98,10 @@ def main(argv):
     bounded_funcs = list(prop.get('bounded', []))   # twin only: bounded stand-ins, never counted as proved
     lemma_names = list(prop.get('lemmas', []))
     baseline = load_json(os.path.join(ROOT, 'baseline', pid + '.json'), {})
+    # a finding is listed under its own property; `also_seen_in` names the other properties whose
+    # function sets contain the same obligation (the finding is printed for those as well)
     known = [k for k in load_json(os.path.join(ROOT, 'known_findings.json'), []) if isinstance(k, dict)
-             and k.get('property') == pid]
+             and (k.get('property') == pid or pid in k.get('also_seen_in', []))]
 
     results = []
     twin_budget = 150 if tier == 'quick' else 1500
